@@ -54,7 +54,7 @@ def gen_source(rng, nb, flags=None, hostile=False, min_fitted=2):
     return dict(name='src', flags=flags, flux=flux, err=err)
 
 
-def gen_case(rng, mode='2d', nb=None, nm=None, flags=None, hostile=False, fmt='v1'):
+def gen_case(rng, mode='2d', nb=None, nm=None, flags=None, hostile=False, fmt=None):
     nb = nb or rng.randint(2, 6)
     nm = nm or rng.randint(1, 8)
     wavs = []
@@ -67,7 +67,7 @@ def gen_case(rng, mode='2d', nb=None, nm=None, flags=None, hostile=False, fmt='v
     kind = rng.choice(['wide', 'wide', 'low', 'high', 'point', 'narrow'])
     avr = {'wide': [0.0, 40.0], 'low': [rng.dyadic(5, 30, 6), 60.0], 'high': [0.0, rng.dyadic(0.0, 3.0, 6)],
            'point': [2.5, 2.5], 'narrow': [1.0, 1.5]}[kind]
-    case = dict(mode=mode, fmt=fmt, src=src, wav=wavs, ext=ext, av_range=avr, names=['model_%04d' % i for i in range(nm)])
+    case = dict(mode=mode, fmt=fmt or 'v1', src=src, wav=wavs, ext=ext, av_range=avr, names=['model_%04d' % i for i in range(nm)])
     # model fluxes roughly around the data so that limits fall on both sides
     base = [x if f != 4 else 10.0 ** min(max(x, -4), 4) for x, f in zip(src['flux'], src['flags'])]
     base = [b if (b > 0 and math.isfinite(b) and b < 1e20 and b > 1e-20) else 1.0 for b in base]
@@ -105,6 +105,8 @@ def gen_case(rng, mode='2d', nb=None, nm=None, flags=None, hostile=False, fmt='v
                 else:
                     fl = [rng.dyadic(0.1, 3.0, 8) * scale for _ in aps]
                 case['flux'][m][j] = fl
+    if fmt is None and rng.random() < 0.3:       # drawn last, so that the rest of the case does not depend on it
+        case['fmt'] = 'v2'
     return case
 
 
